@@ -1,7 +1,3 @@
-import Aqv.Base.Proto
-open Aqv Aqv.Proto
-
-/-- stub driver for C03 (answers every case line with "bad-op"); replaced when the property is built. -/
-def handle (l : String) : String := let _ := l; "bad-op\tagree"
-
-def main : IO Unit := runLines handle
+import Aqv.Model.ChainReplay
+/-! Model driver of property C03: replays every harness history on `Aqv.Model.Chain` (see `Aqv.Model.ChainReplay`). -/
+def main : IO Unit := Aqv.Proto.runLines (Aqv.ChainReplay.handle "C03")
